@@ -220,3 +220,56 @@ Definition regions_of_info (l : list (Z * Z * Z)) : list region :=
   map (fun e => let '(a, b, p) := e in region_of_info a b p) l.
 Definition regions_of_maps (l : list (Z * Z * Z)) : list region :=
   map (fun e => let '(a, b, p) := e in region_of_map a b (Z.testbit p 2) (Z.testbit p 1) (Z.testbit p 0)) l.
+
+(* ------------------------------------------------------------ from the raw records of the dump *)
+(* MINIDUMP_SYSTEM_INFO.{processor_architecture, platform_id} and MINIDUMP_EXCEPTION.{exception_code, exception_flags,
+   number_parameters, exception_information[0..1], exception_address}.  Os / PlatformId / the per-OS dispatch of
+   CrashReason::from_exception and the error enums are regenerated (Gen.C19Check); the fragments of
+   from_windows_exception / from_linux_exception / from_mac_exception and get_crash_address this depends on are pinned
+   textually by the translator. *)
+(* the three Os values represents_general_protection_fault knows *)
+Definition os_class (o : gosx) : gos :=
+  match o with GOsWindows => OsWindows | GOsMacOs => OsMacOs | GOsLinux => OsLinux | _ => OsOther end.
+
+(* CrashReason::from_exception, as far as the GPF test and MemoryOperation::from_crash_reason can tell reasons apart *)
+Definition reason_of (c : gcpu) (o : gosx) (code flags nparams info0 : Z) : reason :=
+  let fam := g_reason_family o in
+  if fam =? 0 then
+    (if (code =? WIN_EXCEPTION_ACCESS_VIOLATION) && (1 <=? nparams) && existsb (Z.eqb info0) WIN_ACCESS_TYPES
+     then RWinAccessViolation info0 else ROther)
+  else if fam =? 1 then
+    (if (code =? MAC_EXC_BAD_ACCESS) && negb (existsb (Z.eqb flags) MAC_BAD_ACCESS_KERN_TYPES) &&
+        (gcpu_eqb c GX86 || gcpu_eqb c GX86_64) && (flags =? MAC_EXC_I386_GPFLT)
+     then RMacBadAccessX86Gpflt else ROther)
+  else if fam =? 2 then
+    (if (code =? LINUX_SIGSEGV) && negb (existsb (Z.eqb flags) LINUX_SIGSEGV_KINDS) then RLinuxGeneral code flags
+     else if (code =? LINUX_SIGBUS) && negb (existsb (Z.eqb flags) LINUX_SIGBUS_KINDS) then RLinuxGeneral code flags
+     else ROther)
+  else ROther.
+
+(* MinidumpException::get_crash_address *)
+Definition crash_address (c : gcpu) (o : gosx) (code nparams info1 excaddr : Z) : Z :=
+  let a := match o with
+           | GOsWindows => if ((code =? WIN_EXCEPTION_ACCESS_VIOLATION) || (code =? WIN_EXCEPTION_IN_PAGE_ERROR)) && (2 <=? nparams)
+                           then info1 else excaddr
+           | _ => excaddr
+           end in
+  match pointer_width c with WBits32 => a mod 4294967296 | _ => a end.
+
+Record exc_record := { er_code : Z; er_flags : Z; er_nparams : Z; er_info0 : Z; er_info1 : Z; er_address : Z }.
+
+Section DumpPipeline.
+  Variable analysis : pcontext -> option op_analysis.
+  Definition dump_cpu (arch : Z) := cpu_of_arch arch.
+  Definition dump_os (platform_id : Z) := os_of_platform_id platform_id.
+  Definition dump_reason (arch platform_id : Z) (e : exc_record) : reason :=
+    reason_of (dump_cpu arch) (dump_os platform_id) (er_code e) (er_flags e) (er_nparams e) (er_info0 e).
+  Definition dump_address (arch platform_id : Z) (e : exc_record) : Z :=
+    crash_address (dump_cpu arch) (dump_os platform_id) (er_code e) (er_nparams e) (er_info1 e) (er_address e).
+  Definition dump_adj (arch platform_id : Z) (e : exc_record) (pc : option pcontext) : gadj :=
+    pipeline_adj analysis (dump_cpu arch) (os_class (dump_os platform_id)) (dump_reason arch platform_id e)
+                 (dump_address arch platform_id e) pc.
+  Definition dump_pipeline (arch platform_id : Z) (e : exc_record) (pc : option pcontext) (rs : list region) : list flip :=
+    pipeline analysis (dump_cpu arch) (os_class (dump_os platform_id)) (dump_reason arch platform_id e)
+             (dump_address arch platform_id e) pc rs.
+End DumpPipeline.
